@@ -32,3 +32,5 @@ func fieldVal(v zed.Value, name string) (zed.Value, bool) {
 	}
 	return zed.Null, false
 }
+
+func zson_type(v zed.Value) string { return zson.String(v.Type()) }
